@@ -120,6 +120,7 @@ fn check(ctx: &Ctx, c: &Case) -> CaseResult {
         let mut delivered_token: Option<usize> = None;
         let mut disconnected_peer: Option<NodeId> = None;
         let mut cmd_chan: Option<usize> = None;
+        let mut stash: std::collections::VecDeque<Io> = Default::default();
         let fetching_before: BTreeMap<RepoId, NodeId> = lab.node.fetching().iter().map(|(r, f)| (*r, f.from)).collect();
 
         match ev {
@@ -232,8 +233,13 @@ fn check(ctx: &Ctx, c: &Case) -> CaseResult {
                                 format!("step {step} {ev:?}: late result of {:?} hit the live fetch from {} (panic at {loc}: {msg})", t, live.remote),
                             );
                         }
+                        // What the call emitted is looked at right away: a new fetch request for the
+                        // repository means the service considered the live fetch finished (and
+                        // dequeued the next one), even if the bookkeeping entry exists again.
+                        stash.extend(lab.drain());
+                        let restarted = stash.iter().any(|io| matches!(io, Io::Fetch { rid, .. } if *rid == t.rid));
                         let still = lab.node.fetching().get(&t.rid).map(|f| f.from);
-                        if still != Some(live.remote) {
+                        if still != Some(live.remote) || restarted {
                             return fail(
                                 format!("late-result-applied:{same}"),
                                 format!(
@@ -253,7 +259,8 @@ fn check(ctx: &Ctx, c: &Case) -> CaseResult {
         // ---- observe the outbox in order, the way the wire executes it: a disconnect request
         // takes the peer down at once (the service hears about it right after), and a fetch
         // request for a peer that is not connected is dropped by the wire (no worker, no result).
-        let mut queue: std::collections::VecDeque<Io> = lab.drain().into();
+        let mut queue: std::collections::VecDeque<Io> = stash;
+        queue.extend(lab.drain());
         let mut down: Vec<NodeId> = vec![];
         while let Some(io) = queue.pop_front() {
             match io {
